@@ -599,7 +599,8 @@ def stream_ipv6(ctx, r):
         if r.random() < 0.6:
             cut = r.randint(0, len(ps)); s = ":".join(ps[:cut]) + "::" + ":".join(ps[cut:])
         if r.random() < 0.35:
-            v4 = ".".join(r.choice(["0", "1", "9", "10", "255", "256", "01", "00", "", "1234"]) for _ in range(r.randint(1, 5)))
+            v4 = ".".join(r.choice(["0", "1", "9", "10", "255", "256", "01", "00", "", "1234", "4294967296", "4294967297", "4294967551", "4294967552",
+                                     "8589934600", "18446744073709551617", "999999999999", "1" + "0" * r.randint(9, 25), str(2 ** 32 * r.randint(1, 9) + r.randint(0, 300))]) for _ in range(r.randint(1, 5)))
             s = s + ("" if s.endswith(":") or not s else ":") + v4
         if r.random() < 0.05:
             s += r.choice([":", "::", ".", "%", " "])
@@ -609,6 +610,11 @@ def stream_ipv6(ctx, r):
         for rep in range(scale(ctx, 2, 20)):
             a = [(0 if (pat >> i) & 1 else r.choice(vals[1:])) for i in range(8)]
             lines.append("ipv6ser " + " ".join(str(x) for x in a))
+    # the embedded dotted quad with parts of ten and more digits (a 32-bit accumulator wraps at 2^32: 4294967297 = 1)
+    for rep in range(scale(ctx, 150, 1500)):
+        parts = [r.choice(["1", "2", "0", "255"]) for _ in range(4)]
+        parts[r.randint(0, 3)] = r.choice(["4294967296", "4294967297", "4294967551", "8589934600", "18446744073709551617", str(2 ** 32 * r.randint(1, 2 ** 33) + r.randint(0, 255)), str(2 ** 64 * r.randint(1, 5) + r.randint(0, 255))])
+        lines.append("ipv6 %s" % tok(r.choice(["::", "::ffff:", "1:2:3:4:5:6:", "1::"]) + ".".join(parts), r.choice(["b", "h", "w"])))
     # addresses of (nearly) maximal length: 8 four-digit pieces (39), 6 pieces + dotted quad (up to 45), with a
     # compression, one piece too many / too long; and wide input whose code units alias hex digits in the low byte
     for rep in range(scale(ctx, 1500, 30000)):
